@@ -98,6 +98,7 @@ def chain_source(case):
         src.append("def %s():" % name)
         src.append("    if 0: yield  # every level is a generator function (a plain function runs inside asynq's own wrapper frame)")
         src.append("    STACKS[%d] = asynq.debug.format_asynq_stack()" % i)
+        src.append("    asynq.debug.dump_asynq_stack()")
         if lv["pre_block"]:
             src.append("    yield DebugBatchItem('c18', %d)" % i)
         if i == r:
@@ -143,6 +144,13 @@ def check_chain(case, ctx):
         catcher = max([i for i in range(r) if levels[i]["handler"] == "catch"] or [-1])
         err = None
         with sink.capture_print():
+            import asynq.debug as D0
+            try:
+                D0.dump_asynq_stack()            # outside any task: says so, never raises
+                if D0.format_asynq_stack() is not None:
+                    viol.append(("C18.stack", "format_asynq_stack() outside any task returned a stack"))
+            except Exception as e:
+                viol.append(("C18.stack", "dump_asynq_stack() outside any task raised %r" % (e,)))
             try:
                 mod.lvl_00_()
             except mod.HExc as e:
@@ -170,8 +178,21 @@ def check_chain(case, ctx):
                     viol.append(("C18.glue", "%s: traceback frames (generated functions only) are %r, expected one per task level in call order: %r" % (desc, collapsed, want)))
                 elif frames[-1][1] != (boom_line if case["raise_via_helper"] else raise_line) or (case["raise_via_helper"] and [f for f in frames if f[0] == want[-2]][-1][1] != raise_line):
                     viol.append(("C18.glue", "%s: the traceback does not end at the raising line (frames %r, raising line %d)" % (desc, frames[-2:], raise_line)))
-                # the formatted error must be producible and mention every level
+                # asynq's own extractor (which hides asynq's frames) must list the same user frames
                 import asynq.debug as D
+                try:
+                    ex = [(e[2], e[1]) for e in D.extract_tb(err.__traceback__) if e[0] == path or e[0].startswith("<generated lvl_")]
+                    if [k for k, _ in itertools.groupby([n for n, _ in ex])] != want:
+                        viol.append(("C18.glue", "%s: debug.extract_tb lists the generated functions %r, expected %r" % (desc, [n for n, _ in ex], want)))
+                    if not isinstance(D.format_tb(err.__traceback__), list):
+                        viol.append(("C18.format_error", "%s: debug.format_tb did not return a list" % desc))
+                    import logging
+                    text = D.AsynqStackTracebackFormatter().formatException((type(err), err, err.__traceback__))
+                    if any(("lvl_%02d_" % i) not in text for i in range(r + 1)):
+                        viol.append(("C18.glue", "%s: AsynqStackTracebackFormatter output does not mention every task level" % desc))
+                except Exception as e:
+                    viol.append(("C18.format_error", "%s: extract_tb/format_tb/AsynqStackTracebackFormatter raised %r" % (desc, e)))
+                # the formatted error must be producible and mention every level
                 for hl in (False, True):
                     D.enable_traceback_syntax_highlight(hl)
                     try:
